@@ -20,7 +20,9 @@ RULE = ("matrices are drawn from VERIF_SEED: sizes 1..7; dense random, graded (c
         "rational orthogonal factors), diagonal/triangular/permutation/integer matrices for QR; symmetric Q*diag(lambda)*Q^T with "
         "known lambda (ratios 0.1..0.8 of either sign, diagonal and block-diagonal included) for the eigen routines; a case is "
         "non-trivial when the model answers ok/err and is counted once per distinct (op, size, family, sign pattern / condition decade)")
-CORR_ONLY = ["convergence of the unshifted QR iteration (spectra separated in magnitude): decided against the known spectrum and the model's iteration",
+CORR_ONLY = ["QR factors are compared with the model modulo the sign gauge D = diag(+-1) (column k of Q, row k of R), in the gauge R[k][k] >= 0: "
+             "the property does not fix the signs of diag(R) (theorem Lp.C15.qr_sign_gauge)",
+             "convergence of the unshifted QR iteration (spectra separated in magnitude): decided against the known spectrum and the model's iteration",
              "termination and accuracy of Find_Eigenvector_Rayleigh / Eigensystem / Eigenvectors: property oracle on the implementation only "
              "(the outcome of inverse iteration with the converged eigenvalue as shift is decided by rounding errors, which the exact model does not have)"]
 ASSUMPTIONS = ["the algebraic clauses are stated over Mathlib matrices (every sequence of symmetric orthogonal reflectors) and, end to end, "
@@ -268,6 +270,41 @@ def traceless_spectrum(rng, n):
             return lam
 
 
+def checkerboard_family(rng, nrandom):
+    """symmetric matrices that couple only indices of equal parity (two dense blocks on the even and on the odd indices,
+    exact zeros elsewhere): the first sub-diagonal is exactly zero throughout the iteration, the convergence is decided by
+    the entries two below the diagonal — the whole lower triangle belongs to the convergence test.  Deterministic members
+    first, then random ones; each block carries its eigenvalues in decreasing magnitude."""
+    out = []
+    F = Fraction
+    det = random.Random(15016)
+
+    def member(r, lam_even, lam_odd):
+        ne, no = len(lam_even), len(lam_odd)
+        n = ne + no
+        B = block_diag([cayley(r, ne), cayley(r, no)]) if min(ne, no) >= 1 else None
+        lam = list(lam_even) + list(lam_odd)
+        D = fmat(n, lambda i, j: lam[i] if i == j else F(0))
+        Mb = mmul(mmul(B, D), mT(B))
+        pos = [2 * i for i in range(ne)] + [2 * i + 1 for i in range(no)]     # block index -> matrix index
+        inv = {pos[k]: k for k in range(n)}
+        M = [[Mb[inv[i]][inv[j]] for j in range(n)] for i in range(n)]
+        Mf = [[float(M[i][j]) if i <= j else float(M[j][i]) for j in range(n)] for i in range(n)]
+        return Mf, lam, "checkerboard"
+
+    out.append(member(det, [F(12), F(-3, 2)], [F(-13, 10), F(1, 4)]))
+    out.append(member(det, [F(6), F(4)], [F(-5, 2)]))
+    out.append(member(det, [F(8), F(-5), F(3)], [F(6), F(-4), F(2)]))
+    for _ in range(nrandom):
+        n = rng.choice([3, 4, 4, 5, 6, 7])
+        lam = sorted(spectrum(rng, n), key=abs, reverse=True)
+        ne = (n + 1) // 2
+        idx = list(range(n)); rng.shuffle(idx)
+        ev_, od_ = sorted(idx[:ne]), sorted(idx[ne:])
+        out.append(member(rng, [lam[i] for i in ev_], [lam[i] for i in od_]))
+    return out
+
+
 def traceless_family(rng, nrandom):
     """(matrix, spectrum, family) — deterministic members first (independent of VERIF_SEED), then random ones.
     A generic dense rational orthogonal Q (or dense blocks with exact zeros between them, or no Q at all) is
@@ -327,6 +364,9 @@ def generate(tier, seed, ctx):
     # convergence test must be normalised by sum|A_jj|, not by the trace
     for M, lam, fam in traceless_family(rng, 60 if thorough else 14):
         R.append(req_matrix("c15.spectrum", M)); meta[R[-1]] = ("eig", fam, lam)
+    # only equal-parity indices coupled: the first sub-diagonal is exactly zero, the test must look at the whole lower triangle
+    for M, lam, fam in checkerboard_family(rng, 40 if thorough else 9):
+        R.append(req_matrix("c15.spectrum", M)); meta[R[-1]] = ("eig", fam, lam)
     # the repository's own test matrix
     T3 = [[2.0, -1.0, 0.0], [-1.0, 2.0, -1.0], [0.0, -1.0, 2.0]]
     T3lam = [Fraction(2.0), Fraction(2.0 - math.sqrt(2.0)), Fraction(2.0 + math.sqrt(2.0))]
@@ -371,6 +411,23 @@ def oracle_qr(n, M, Q, R):
     if low > K_ORA * n * EPS * nm:
         out.append(("QR_Decomposition: R is not upper triangular", "max sub-diagonal entry %.3g (max|M| %.3g)" % (float(low), float(nm))))
     return out
+
+
+def _qr_gauge(n, vals):
+    """flat [Q (n*n), R (n*n)] -> the same factorisation with column k of Q and row k of R negated wherever R[k][k] < 0
+    (R[k][k] = 0 exactly is left as it is); returns (values, tuple of the signs applied)"""
+    vals = list(vals)
+    signs = []
+    for k in range(n):
+        if vals[n * n + k * n + k] < 0:
+            signs.append(-1)
+            for i in range(n):
+                vals[i * n + k] = -vals[i * n + k]
+            for j in range(n):
+                vals[n * n + k * n + j] = -vals[n * n + k * n + j]
+        else:
+            signs.append(1)
+    return vals, tuple(signs)
 
 
 def _finite(v):
@@ -463,6 +520,12 @@ def compare(rq, impl, model, ctx):
         bump(ctx, "qr.kappa.1e%d" % int(min(16, math.log10(max(kappa, 1.0)))))
         if not out and kappa <= 1e7:
             vm = [fr(t) for t in tm]
+            # The property fixes Q*R, Q^T Q and the triangular shape, not the signs of diag(R): (Q D)(D R) = Q R for every
+            # D = diag(+-1) (Lean: Lp.C15.qr_sign_gauge).  Both answers are compared in the gauge R[k][k] >= 0.
+            v, sg_i = _qr_gauge(n, v)
+            vm, sg_m = _qr_gauge(n, vm)
+            if sg_i != sg_m:
+                bump(ctx, "qr.sign_gauge_differs_from_model")
             kq = Fraction(kappa)
             nm = Fraction(_absmax(M))
             worst = 0.0
